@@ -1,7 +1,7 @@
 (* C04 - The fid table follows the protocol history exactly.
    Property theorems only (each closed by [exact] of a lemma proved elsewhere, followed by Print Assumptions). *)
 From Coq Require Import NArith ZArith List Bool.
-From V9 Require Shape.ShapeLib Shape.PSeq.
+From V9 Require Shape.ShapeLib Shape.PSeq Shape.POrder.
 From V9 Require Import Lib.GoSem Lib.Bytes Gen.Consts Codec.Msg Srv.Seq Srv.SeqSpec Srv.SeqProofs.
 Import ListNotations.
 Local Open Scope N_scope.
@@ -123,3 +123,8 @@ Print Assumptions C04_remove_removes_key_only.
 Theorem C04_source_handlers_check_before_they_change : ShapeLib.handlers_check_before_they_change = true.
 Proof. exact PSeq.handlers_check_before_they_change_ok. Qed.
 Print Assumptions C04_source_handlers_check_before_they_change.
+
+(* the reply is handed to the send goroutine only after the post-handlers ran: the implementation is told of a fid's destruction (FidDestroy, in PostProcess) no later than the reply that invalidates the fid (order of the steps of Respond in the CURRENT source) *)
+Theorem C04_source_respond_order : ShapeLib.respond_order = true.
+Proof. exact POrder.respond_order_ok. Qed.
+Print Assumptions C04_source_respond_order.
